@@ -1,4 +1,92 @@
-(* placeholder *)
-From Coq Require Import ZArith.
-Theorem C03_placeholder : True. Proof. exact I. Qed.
-Print Assumptions C03_placeholder.
+(* C03 -- control transfers land on their label; the label table is exact.  Statements only.
+   `assemble_items` is the hand-written model of the 16 passes of asm.assemble (Model/Passes.v, tied to the code by
+   the pipeline correspondence); it calls the GENERATED criteria / encoders / relocation functions.
+   Quantifier: programs with unique label names and `align N` with N >= 1 (nonneg, NoDup (gnames its)). *)
+From Coq Require Import ZArith List String.
+From BB Require Import Base.PyBase Gen.Encoders Spec.RV32 Spec.RVC Spec.Operands Model.Items Model.Encode Model.Passes
+  Proofs.Layout Proofs.Pipeline Proofs.Targets Proofs.Reloc Proofs.Examples.
+Import ListNotations.
+Open Scope Z_scope.
+
+(* The label table returned by a successful run is EXACT, with compression off and on: there is a final item list
+   [fin] in which (grouped Rsrc) every source item owns a contiguous group of items carrying its line and every label
+   marker stays where the source put it, (blobbed) whose non-label items are the emitted chunks with
+   chunk length = item size, and (exact) the value reported for each label is the total size of what precedes its
+   marker -- i.e. the address of the bytes that follow the label in the output. *)
+Theorem C03_labels :
+  forall its consts0 labels0 compress r,
+    assemble_items its consts0 labels0 compress = Done r -> nonneg its -> NoDup (gnames its) ->
+    exists fin, grouped Rsrc its fin /\ blobbed fin (r_chunks r) /\ exact fin (r_labels r) /\ gnames fin = gnames its.
+Proof. intros. apply source_order. eapply pipeline_layout; eauto. Qed.
+Print Assumptions C03_labels.
+
+(* every label of the program is in the table *)
+Theorem C03_every_label :
+  forall fin labels L, exact fin labels -> In L (gnames fin) -> exists q, goff L fin = Some q /\ assoc_str L labels = Some q.
+Proof. intros fin labels L He Hi. destruct (in_goff L fin Hi) as [q Hq]. exists q. split; auto. Qed.
+Print Assumptions C03_every_label.
+
+(* The immediate of a transfer to label L, evaluated by resolve_immediates at final offset p with the final label
+   table (C08_final), is q - p where q is L's value; pushed through the generated encoder, the Spec decodes the
+   distance q - p: the transfer lands on p + (q - p) = q.  Branches, jal (also j / jal L / near call / tail): *)
+Theorem C03_branch_lands :
+  forall l p consts labels L q name a b z w,
+    chain_get consts labels L = Some q -> imm_of l p consts labels (FExpr (EOff L)) = Done z ->
+    In name branch_names -> encode name [a; b; AInt z] [] = Ok w ->
+    exists c r1 r2, regnum a = Some r1 /\ regnum b = Some r2 /\ decode32 w = Some (Branch c r1 r2 (q - p)).
+Proof. intros l p consts labels L q name a b z w Hq Hz Hn He. rewrite <- (eval_offset _ _ _ _ _ _ _ Hq Hz). eapply branch_decodes; eauto. Qed.
+Print Assumptions C03_branch_lands.
+
+Theorem C03_jal_lands :
+  forall l p consts labels L q a z w,
+    chain_get consts labels L = Some q -> imm_of l p consts labels (FExpr (EOff L)) = Done z ->
+    encode "jal" [a; AInt z] [] = Ok w ->
+    exists rd, regnum a = Some rd /\ decode32 w = Some (Jal rd (q - p)).
+Proof. intros l p consts labels L q a z w Hq Hz He. rewrite <- (eval_offset _ _ _ _ _ _ _ Hq Hz). eapply jal_decodes; eauto. Qed.
+Print Assumptions C03_jal_lands.
+
+(* far call / tail: auipc at offset p carries %hi(L - p); the jalr that follows is evaluated at the auipc's
+   position (is_auipc_jump) and carries %lo(L - p); pc-relative sum = q (mod 2^32) *)
+Theorem C03_far_lands :
+  forall l p consts labels L q a b c h lo w1 w2,
+    chain_get consts labels L = Some q ->
+    imm_of l p consts labels (FExpr (EHi (EOff L))) = Done h ->
+    imm_of l p consts labels (FExpr (ELo (EOff L))) = Done lo ->
+    encode "auipc" [a; AInt h] [] = Ok w1 -> encode "jalr" [b; c; AInt lo] [] = Ok w2 ->
+    exists r1 r2 r3 hi', regnum a = Some r1 /\ regnum b = Some r2 /\ regnum c = Some r3 /\
+      decode32 w1 = Some (Auipc r1 hi') /\ decode32 w2 = Some (Jalr r2 r3 lo) /\
+      (p + hi' * 4096 + lo) mod 2^32 = q mod 2^32.
+Proof.
+  intros l p consts labels L q a b c h lo w1 w2 Hq Hh Hl H1 H2.
+  destruct (auipc_jalr_decodes _ _ _ _ _ _ _ H1 H2) as (r1 & r2 & r3 & A & B & C & D1 & D2).
+  exists r1, r2, r3, (upper_norm h). repeat split; auto.
+  rewrite (eval_hi_offset _ _ _ _ _ _ _ Hq Hh), (eval_lo_offset _ _ _ _ _ _ _ Hq Hl), upper_norm_hi.
+  replace (p + relocate_hi (q - p) * 4096 + relocate_lo (q - p)) with (p + (relocate_hi (q - p) * 4096 + relocate_lo (q - p))) by ring.
+  rewrite <- Zplus_mod_idemp_r, hi_lo_rebuild, Zplus_mod_idemp_r. f_equal. ring.
+Qed.
+Print Assumptions C03_far_lands.
+
+(* the compressed renderings chosen by the compression pass *)
+Theorem C03_cj_lands :
+  forall l p consts labels L q name z h,
+    chain_get consts labels L = Some q -> imm_of l p consts labels (FExpr (EOff L)) = Done z ->
+    In name ["c.j"; "c.jal"]%string -> encode name [AInt z] [] = Ok h ->
+    exists ci, decode16 h = Some ci /\ expand_c ci = Jal (if String.eqb name "c.j" then 0 else 1) (q - p).
+Proof. intros l p consts labels L q name z h Hq Hz Hn He. rewrite <- (eval_offset _ _ _ _ _ _ _ Hq Hz). eapply cj_decodes; eauto. Qed.
+Print Assumptions C03_cj_lands.
+
+Theorem C03_cb_lands :
+  forall l p consts labels L q name a z h,
+    chain_get consts labels L = Some q -> imm_of l p consts labels (FExpr (EOff L)) = Done z ->
+    In name ["c.beqz"; "c.bnez"]%string -> encode name [a; AInt z] [] = Ok h ->
+    exists ci r1 c, regnum a = Some r1 /\ decode16 h = Some ci /\ expand_c ci = Branch c r1 0 (q - p).
+Proof. intros l p consts labels L q name a z h Hq Hz Hn He. rewrite <- (eval_offset _ _ _ _ _ _ _ Hq Hz). eapply cb_decodes; eauto. Qed.
+Print Assumptions C03_cb_lands.
+
+(* non-vacuity: a program with a forward jump, a backward call, an alignment and a backward branch assembles in both
+   modes and meets the hypotheses *)
+Example C03_example :
+  nonneg ex_its /\ NoDup (gnames ex_its) /\
+  (exists r, assemble_items ex_its [] [] true = Done r /\ r_labels r = [("a", 0); ("b", 8)]%string) /\
+  (exists r, assemble_items ex_its [] [] false = Done r /\ r_labels r = [("a", 0); ("b", 8)]%string).
+Proof. exact (conj ex_nonneg (conj ex_nodup (conj ex_runs_c ex_runs_u))). Qed.
